@@ -15,4 +15,5 @@ def obligations(tier):
     # real library, exact arithmetic: peak at the input instant, symmetric about it, unit gain per output phase)
     obls += [e2e_obl(c, ('sym', 'gain'), tier) for c in align_cfgs(tier)]
     obls += [e2e_obl(c, ('sym',), tier) for c in e2e_cfgs(tier)[:8]]
+    obls += [plan_obl(1, 0)]      # planner pieces of cr.c (set_dft_length / dft_stage_init / validation prefix)
     return obls
